@@ -765,6 +765,9 @@ func (w *c29World) run(j c29Job) (rep c29Reply) {
 			tok = ua.NewNumericNodeID(0, 0x7ffffff1)
 		case "foreign":
 			tok = o.tok
+			// a request with the other connection's token may re-bind that session to this channel
+			// (ActivateSession) or close it: neither session is reused by later histories
+			c.tainted, o.tainted = true, true
 		}
 		err := func() (err error) {
 			// the gopcua encoder panics on some nil members: that is the client's problem, not the server's
